@@ -243,8 +243,8 @@ where
 
         let mut last_state = self.positions.clone();
 
-        let mut last_state_data = last_state.to_data();
-        if let Err(e) = tracker.step(last_state_data.as_slice::<T>().unwrap()) {
+        let mut last_state_data = last_state.to_data().convert::<f32>();
+        if let Err(e) = tracker.step(last_state_data.as_slice::<f32>().unwrap()) {
             eprintln!("Warning: Shown progress statistics may be unreliable since updating them failed with: {}", e);
         }
 
@@ -262,8 +262,8 @@ where
             pb.inc(1);
             last_state = current_state;
 
-            last_state_data = last_state.to_data();
-            if let Err(e) = tracker.step(last_state_data.as_slice::<T>().unwrap()) {
+            last_state_data = last_state.to_data().convert::<f32>();
+            if let Err(e) = tracker.step(last_state_data.as_slice::<f32>().unwrap()) {
                 eprintln!("Warning: Shown progress statistics may be unreliable since updating them failed with: {}", e);
             }
 
